@@ -514,9 +514,15 @@ extern int total_queries;
         case CIF_LIST_KIND: \
         case CIF_TABLE_KIND: \
             _blob = (const void *) sqlite3_column_blob(_stmt, _col_ofs + 2); \
-            if ((_blob != NULL) && (cif_value_deserialize( \
-                    _blob, (size_t) sqlite3_column_bytes(_stmt, _col_ofs + 2), _value) == CIF_OK)) { \
-                break; \
+            if (_blob != NULL) { \
+                int _gvp_result = cif_value_deserialize( \
+                        _blob, (size_t) sqlite3_column_bytes(_stmt, _col_ofs + 2), _value); \
+                if (_gvp_result == CIF_OK) { \
+                    break; \
+                } else if (_gvp_result == CIF_MEMORY_ERROR) { \
+                    /* not an inconsistency of the stored data */ \
+                    FAIL(errlabel, CIF_MEMORY_ERROR); \
+                } \
             } \
             FAIL(errlabel, CIF_INTERNAL_ERROR); \
         case CIF_UNK_KIND: \
